@@ -403,6 +403,15 @@ def gen_programs(ctx):
         add(P(0x33, 0x80, 0x02, 0x80, 0x02, 0x80, 0x80, 0x55, 0x00), L, 5, 0, "sstore-large")
         add(P(0x33, 0x80, 0x02, 0x80, 0x5f, 0x52, 0x80, 0x60, 0x20, 0x52, 0x60, 0x40, 0x52, 0x60, 0x60, 0x5f, 0x20, 0x60, 0x60, 0x5f, 0xf3),
             L, 5, 0, "memory-slice")
+    # a key of 2^(k+1)-1 nodes (k rounds of DUP1 ADD on an environment value); a word of each provenance stored under it
+    # (pushed constant, environment value, call-data word, computed); then loaded back: the SLoad wrapper has key.size + 2
+    # nodes, so it must be culled whenever the key alone nearly fills the limit
+    for k in (0, 1, 2, 3, 4):
+        ksize = 2 ** (k + 1) - 1
+        for L in sorted(set([max(1, ksize - 1), ksize, ksize + 1, ksize + 2, ksize + 3])):
+            for stored in (bytes([0x60, 0x2a]), bytes([0x33]), bytes([0x5f, 0x35]), bytes([0x60, 1, 0x60, 2, 0x01]), bytes([0x7f]) + bytes(range(32))):
+                # CALLER (DUP1 ADD)^k <stored> DUP2 SSTORE SLOAD STOP
+                add(P(0x33, bytes([0x80, 0x01]) * k, stored, 0x81, 0x55, 0x54, 0x00), L, 3, 0, "store-then-load-at-large-key")
     # the compiler-produced contracts that ship with the repository
     import gen
     for name, h in gen.real_contracts():
